@@ -26,6 +26,7 @@ UNITS = [
     "src/orange/OrangeParams.cc",
     "src/orange/detail/UnitInserter.cc",
     "src/orange/orangeinp/UnitProto.cc",
+    "src/orange/detail/DepthCalculator.cc",
 ]
 
 OTV = C + "OrangeTrackView::"
@@ -260,6 +261,7 @@ def run(db, cx):
 
     frame_agreement(db, cx, meths)
     frame_carry(db, cx, meths)
+    depth_covers_daughters(db, cx)
 
 
 # ------------------------------------------------------------ 6. frame agreement
@@ -634,3 +636,52 @@ def frame_carry(db, cx, meths):
                       "written to puts the daughter-level coordinates at a ghost point: distances to "
                       "the daughter's boundaries are wrong by the size of the move")
     cx.floor("carried-vector level loops", n, 2)
+
+
+def depth_covers_daughters(db, cx):
+    """C03.7-depth-all-daughters: `scalars.max_depth` sizes the per-level navigation state
+    (slot * max_depth + level) and the navigator descends as deep as the geometry really is.
+    The depth of a universe is therefore 1 + the maximum over *all* its daughters: in both
+    DepthCalculator overloads the recursive call sits in a loop over the record's daughter
+    container, is folded with max into the value that is returned (+1), and the loop is not
+    left early.  An under-reported depth lets one track's deep levels alias the next slot."""
+    from cfg import loops_of
+    DC = C + "detail::DepthCalculator::operator()"
+    fs = [f for f in db.get(DC) if any(t in f.sig for t in ("UnitInput", "RectArrayInput"))]
+    cx.floor("DepthCalculator overloads over universe records", len(fs), 2)
+    for f in fs:
+        rec = "UnitInput" if "UnitInput" in f.sig else "RectArrayInput"
+        rc = [(b, i, ev) for (b, i, ev) in f.events("call") if ev["callee"] == DC
+              and "OpaqueId" in ev.get("sig", "")]
+        loops = loops_of(f)
+        in_loop, over_daughters, early = False, False, []
+        for (b, i, ev) in rc:
+            for (h, body) in loops:
+                if b not in body:
+                    continue
+                in_loop = True
+                pre = [e for p_ in f.preds(h) if p_ not in body for e in f.blocks[p_]["ev"]]
+                if any(e["e"] == "def" and "__range" in e.get("var", "") and
+                       any(r.startswith("F:") and r.split("::")[-1] in ("daughters", "daughter_map")
+                           for r in e.get("refs", [])) for e in pre):
+                    over_daughters = True
+                for bb in body:
+                    if bb == h:
+                        continue
+                    for sx in f.succ(bb):
+                        if sx is not None and sx not in body and not f.is_exceptional(sx):
+                            early.append(bb)
+        folds = [ev for (_b, _i, ev) in f.events("def")
+                 if any(c.endswith("std::max") or c == C + "max" for c in ev.get("calls", []))
+                 and DC in ev.get("calls", []) and ev.get("var") in local_refs(ev.get("refs", []))]
+        rets = [ev for (_b, _i, ev) in f.events("return")]
+        acc = folds[0]["var"] if folds else None
+        ret_ok = bool(rets) and all(acc in local_refs(r.get("refs", [])) and
+                                    _norm(r.get("t")).replace(acc or "?", "") in ("+1", "1+") for r in rets)
+        ok = bool(rc) and in_loop and over_daughters and not early and bool(folds) and ret_ok
+        cx.ob("C03.7-depth-all-daughters", "DepthCalculator(%s): depth = 1 + max over all daughters" % rec, ok,
+              "recursive call in a loop: %s; loop over the daughter container: %s; early exits: %s; "
+              "max-fold: %s; return: %s" % (in_loop, over_daughters, early or "none",
+                                            acc or "none", [r.get("t") for r in rets]), short(f.loc),
+              why="the per-level state is sized with this number: levels beyond it overwrite the "
+                  "state of the next track slot (or the heap), and navigation silently changes")
